@@ -23,7 +23,7 @@ import (
 	"verif/sched"
 )
 
-var opNames = []string{"record-plain", "record-file-link", "record-dir-link", "record-cycle", "record-twice-reached-link", "run", "sign-verify", "dump-load", "load-key", "verify-chain", "match-rules", "substitute", "dsse-control-characters", "malformed-pattern", "record-big-two-algorithms"}
+var opNames = []string{"record-plain", "record-file-link", "record-dir-link", "record-cycle", "record-twice-reached-link", "run", "sign-verify", "dump-load", "load-key", "verify-chain", "match-rules", "substitute", "dsse-control-characters", "malformed-pattern", "record-big-two-algorithms", "sign-verify-same-key"}
 
 // operations of the auxiliary pass only (twelve at once): verification in which a sublayout contains a sublayout.
 // Not among the scheduled operations: inspections write their link files into the process's working directory
@@ -103,6 +103,22 @@ func prepare(base string, op string, slot int) func() string {
 			}
 			if err := md.VerifySignature(gen.Key("ed6").Pub); err == nil {
 				return "error: verifies under a foreign key"
+			}
+			return "signed and verified"
+		}
+	case "sign-verify-same-key":
+		// as sign-verify, but every body uses the same key pair (a key is an input that is only read)
+		return func() string {
+			k := gen.Key("ed1")
+			md := gen.MustWrap(gen.Link(fmt.Sprintf("l%d", slot), gen.Arts("a", gen.H(byte(slot))), gen.Arts()), slot%2 == 1, k.Full)
+			if err := md.VerifySignature(k.Pub); err != nil {
+				return "error: " + err.Error()
+			}
+			if err := md.Sign(k.Full); err != nil {
+				return "error signing again: " + err.Error()
+			}
+			if err := md.VerifySignature(k.Pub); err != nil {
+				return "error: " + err.Error()
 			}
 			return "signed and verified"
 		}
@@ -238,6 +254,7 @@ func execute(c *mcx.Ctx, cs Case, ch *mcx.Chooser) (results []string, s *sched.S
 	s = sched.New(ch)
 	slot := 0
 	ownDir := map[string]string{}
+	goids := map[int64]bool{} // goroutines of the scheduled threads (written only by the one thread that runs)
 	for ti, ops := range cs.Threads {
 		var bodies []func() string
 		idx := []int{}
@@ -254,6 +271,9 @@ func execute(c *mcx.Ctx, cs Case, ch *mcx.Chooser) (results []string, s *sched.S
 			dirs = append(dirs, filepath.Join(base, fmt.Sprintf("t%d-%s", slot-len(ops)+i, op)))
 		}
 		s.Go(tname, func() {
+			goidMu.Lock()
+			goids[goid()] = true
+			goidMu.Unlock()
 			for i, b := range tb {
 				ownDir[tname] = dirs[i]
 				results[tidx[i]] = b()
@@ -286,10 +306,45 @@ func execute(c *mcx.Ctx, cs Case, ch *mcx.Chooser) (results []string, s *sched.S
 	defer func() { intoto.VerifFSHook = nil }()
 	intoto.VerifAccessHook = func(name string, write bool) { s.Access(name, write) }
 	intoto.VerifSyncHook = func(op string, obj any, f func()) bool { return s.Sync(op, obj, f) }
-	s.Run()
+	// channels: only operations on unbuffered channels made by a scheduled thread itself are owned (receive until
+	// closed, close); buffered channels and goroutines the library starts keep running natively, as before
+	intoto.VerifChanHook = func(op string, ch any, length func() int, capacity int, try func() bool) bool {
+		goidMu.Lock()
+		mine := goids[goid()]
+		goidMu.Unlock()
+		if capacity != 0 || op == "send" || !mine {
+			return false
+		}
+		return s.Chan(op, ch, length, capacity, try)
+	}
+	defer func() { intoto.VerifChanHook = nil }()
+	// a thread that blocks on something the scheduler does not own (a channel, a WaitGroup, a condition) while the
+	// thread it waits for is not scheduled would park the exploration for good: operations that take milliseconds
+	// get half a minute, then this combination is given up as inconclusive (never reported as a violation)
+	finished := make(chan struct{})
+	go func() { s.Run(); close(finished) }()
+	select {
+	case <-finished:
+	case <-time.After(30 * time.Second):
+		stuckScheduled = true
+	}
 	intoto.VerifAccessHook, intoto.VerifSyncHook = nil, nil
 	return
 }
+
+var goidMu sync.Mutex
+
+// goid: the id of the calling goroutine (from the first line of its stack trace)
+func goid() int64 {
+	var buf [64]byte
+	n := runtime.Stack(buf[:], false)
+	var id int64
+	fmt.Sscanf(string(buf[:n]), "goroutine %d ", &id)
+	return id
+}
+
+// stuckScheduled: an execution under the scheduler did not finish (see execute)
+var stuckScheduled bool
 
 // solo computes the result of every operation made alone (same slots, fresh data).
 func solo(c *mcx.Ctx, cs Case) []string {
@@ -373,8 +428,18 @@ func explore(c *mcx.Ctx, cs Case, bound int) (viol map[string]found, ex *mcx.Exp
 	want := solo(c, cs)
 	viol = map[string]found{}
 	ex = &mcx.Explorer{Bound: bound, FullAt: fullAt, MaxExec: 200000}
+	defer func() {
+		if r := recover(); r != nil && r != "stuck" {
+			panic(r)
+		}
+	}()
 	ex.Explore(func(ch *mcx.Chooser) {
 		got, s := execute(c, cs, ch)
+		if stuckScheduled {
+			stuckScheduled = false
+			c.Cap(fmt.Sprintf("scheduled exploration of %v given up: a thread blocked outside the scheduler's view; the auxiliary pass alone covers this combination", cs.Threads))
+			panic("stuck")
+		}
 		if s.Points > points {
 			points = s.Points
 		}
@@ -490,7 +555,7 @@ func replay(c *mcx.Ctx, raw json.RawMessage) (string, string) {
 func init() {
 	mcx.Register(&mcx.Driver{
 		ID: "C16", Run: run, Replay: replay,
-		Rule: "operation multisets: every unordered pair of 15 operations on private data (RecordArtifacts on a plain tree / a 128 KiB file with two hash algorithms / file symlink / followed directory symlink / true cycle / a link reached on two ways; InTotoRun; sign+verify; dump+load; key loading; InTotoVerifyWithDirectory of a private chain; VerifyArtifacts; SubstituteParameters; a DSSE envelope with control characters set, signed, dumped and loaded; VerifyArtifacts with a malformed pattern never used before) as 2 threads x 1 operation, 2 threads x 2 operations over a sub-menu (thorough: larger sub-menu and 3 threads x 1 recording operation); " +
+		Rule: "operation multisets: every unordered pair of 16 operations on private data (RecordArtifacts on a plain tree / a 128 KiB file with two hash algorithms / file symlink / followed directory symlink / true cycle / a link reached on two ways; InTotoRun; sign+verify; dump+load; key loading; InTotoVerifyWithDirectory of a private chain; VerifyArtifacts; SubstituteParameters; a DSSE envelope with control characters set, signed, dumped and loaded; VerifyArtifacts with a malformed pattern never used before) as 2 threads x 1 operation, 2 threads x 2 operations over a sub-menu (thorough: larger sub-menu and 3 threads x 1 recording operation); " +
 			"for each, EVERY schedule with at most 2 (thorough 3) preemptions, where scheduling points are all accesses to every package-level variable of package in_toto (discovered by the overlay rewriter, so a hoisted buffer or cache becomes a point automatically) all sync.Mutex/RWMutex/Once/Map operations (every schedule starts from a cold package: the overlay's reset seam puts package-level state back to its initialisers, so lazily built state is built under the scheduler), and every file-system call of the package (os, path/filepath, io/ioutil functions taking a path: the overlay's file-system seam) on a path outside the directory prepared for the running operation - such a path is a shared object like a variable; oracle per schedule: no two conflicting accesses unordered by happens-before (vector clocks over the shimmed sync operations), no deadlock or panic, and every operation's result equals the result of the same operation made alone. states = executions, transitions = points passed.",
 		Assumptions: []string{
 			"memory-model effects below the granularity of variable accesses and races inside dependencies are outside (a free-running -race pass of the same bodies is auxiliary only)",
@@ -550,11 +615,15 @@ func runFree(c *mcx.Ctx) {
 			start := make(chan struct{})
 			done := make(chan struct{}, len(bodies))
 			var mu sync.Mutex
+			reps := 3
+			if ri >= 4 {
+				reps = 40 // the same operation twelve times at once, again and again: narrow windows get their chance
+			}
 			for bi, b := range bodies {
 				bi, b := bi, b
 				go func() {
 					<-start
-					for r := 0; r < 3; r++ {
+					for r := 0; r < reps; r++ {
 						got := b()
 						if alone != nil && got != alone[bi] {
 							mu.Lock()
@@ -581,7 +650,7 @@ func runFree(c *mcx.Ctx) {
 				}
 			}
 			c.Case(true)
-			c.Impl(int64(len(bodies) * 3))
+			c.Impl(int64(len(bodies) * reps))
 			c.Outcome(fmt.Sprintf("free-running|GOMAXPROCS=%d|goroutines=%d", procs, len(bodies)))
 		}
 		setProcs(prev)
